@@ -35,7 +35,7 @@ def block(c, cat):
         o.append('    ht::check(r.from == %d, cid, "not built from the %d-th argument");' % (i, i))
         # perfect forwarding: T's constructor sees the argument in the caller's value category - an lvalue handed on as an
         # rvalue lets T move from (empty) the caller's object, an rvalue handed on as an lvalue costs a copy
-        o.append('    ht::check(r.as_rvalue == %d, cid, "the argument reaches T\'s constructor in another value category than the caller\'s (%s)");' % (1 if mv else 0, 'rvalue handed on as an lvalue: copied' if mv else 'lvalue handed on as an rvalue: the caller\'s object may be moved from'))
+        o.append('    ht::check(r.as_rvalue == %d, cid, "the argument reaches T\'s constructor in another value category than the caller\'s (%s)");' % (c['reach'][cat], 'rvalue handed on as an lvalue: copied' if mv else 'lvalue handed on as an rvalue: the caller\'s object may be moved from'))
         if not mv:
             o.append('    { std::string s_(40, \'x\'); std::vector<int> v_{1, 2, 3}; %s' % ' '.join('int c%d = %d;' % (k, k) for k in range(1, n + 1)))
             o.append('      auto rs = ctpg::ftors::construct<std::string, %d>{}(%s);' % (i, ', '.join('s_' if k == i else 'c%d' % k for k in range(1, n + 1))))
